@@ -144,12 +144,24 @@ func (c *ctx) nests() {
 			}
 		}
 	}
+	// three lines: leave a quote level (or a pre block, or an unclosed span inside one) and come back to it
+	maxQ3 := r.Pick(3, 4)
+	for d1 := 0; d1 <= maxQ3; d1++ {
+		for d2 := 0; d2 <= maxQ3; d2++ {
+			for d3 := 0; d3 <= maxQ3; d3++ {
+				for _, body := range []string{"a", "```", "*a", "_~x~_"} {
+					doc := quoteLine(d1, body) + quoteLine(d2, "b") + quoteLine(d3, "*c* `d`")
+					c.nestCase([]byte(doc), stdScheds[:2], 1, "quote-profile3")
+				}
+			}
+		}
+	}
 	for _, d := range []int{16, 40, r.Pick(100, 400)} {
 		doc := quoteLine(d, "*_~`x`~_*") + quoteLine(d/2, "```") + quoteLine(d/2, "*a*") + quoteLine(1, "b") + "c\n"
 		c.nestCase([]byte(doc), stdScheds[:3], 1, "quote-deep")
 		c.nestCase([]byte(strings.Repeat("> ", d)+"_x_"), stdScheds[:3], 1, "quote-deep")
 	}
-	r.Exhaustive = append(r.Exhaustive, fmt.Sprintf("every pair of block quote depths 0..%d of two consecutive lines x %d contents; quotes of depth 16, 40, %d", maxQ, len(bodies), r.Pick(100, 400)))
+	r.Exhaustive = append(r.Exhaustive, fmt.Sprintf("every pair of block quote depths 0..%d of two consecutive lines x %d contents; every triple of depths 0..%d of three lines x 4 contents; quotes of depth 16, 40, %d", maxQ, len(bodies), maxQ3, r.Pick(100, 400)))
 
 	// 3. random documents drawn from the grammar
 	n := r.Pick(2500, 40000)
